@@ -151,6 +151,7 @@ def fs_token(fs):
     if t in ('count', 'num', 'init'): return '%s:%d' % (t, fs[1])
     if t == 'open': return 'open:%s,%d,%s' % (o(fs[1]), fs[2], o(fs[3]))
     if t == 'create': return 'create:%s,%s,%d,%s' % (j(fs[1]), o(fs[2]), fs[3], o(fs[4]))
+    if t == 'readerr': return 'readerr:%d:%s' % (fs[1], fs[2].hex())
     if t == 'direrr': return 'direrr:%d:' % fs[1] + ';'.join('%d,%d,%d,%s,%s' % (d[0], d[1], d[2], d[3].hex(), j(d[4])) for d in fs[2])
     if t == 'dirents': return 'dirents:' + ';'.join('%d,%d,%d,%s,%s' % (d[0], d[1], d[2], d[3].hex(), j(d[4])) for d in fs[1])
     if t == 'ioctl': return 'ioctl:%d,%s' % (fs[1], fs[2].hex())
@@ -168,6 +169,7 @@ def coq_fs(fs):
     t = fs[0]
     if t == 'err': return '(FErr (%s %d))' % ('Os' if fs[1] == 'os' else 'Kind', fs[2])
     if t == 'direrr': return '(FErr (Os %d))' % fs[1]      # entries handed over, then an error: the answer IS the error
+    if t == 'readerr': return '(FErr (Os %d))' % fs[1]     # bytes pushed into the data writer, then an error: the answer IS the error
     if t == 'unit': return 'FUnit'
     if t == 'entry': return '(FEntry %s)' % coq_entry(fs[1])
     if t == 'attr': return '(FAttr %s %d %d)' % (coq_stat(fs[1]), fs[1][15], fs[1][16])
@@ -435,6 +437,61 @@ def gen_errkind_cases(rng, start, transports=('fusedev', 'virtio')):
             q['fs'] = ('err', 'kind', kind)
             cases.append(make_case(rng, start + len(cases), q['bytes'], q['fs'], q, cap=1 << 17, remap=(0, 0), minor=33,
                                    transport=transports[k % len(transports)])); k += 1
+    return cases
+
+N_ERRKINDS = 39      # harness kind codes 0..38 (translator/server_dispatch.py KIND_CODE; harness kind_of)
+
+def gen_errkind_ext_cases(rng, start, transports=('fusedev', 'virtio')):
+    """Deterministic block (audit6): the io::ErrorKind codes 10..38 -- every stable kind beyond the ten the harness
+    scripted before -- through a plain and a split-writer reply path.  An arm added to encode_io_error_kind for a kind
+    that could not be scripted used to be invisible (the translator dropped it, no case produced it)."""
+    cases = []
+    for kind in range(10, N_ERRKINDS):
+        op = (3, 15, 1, 28)[kind % 4]
+        q = gen_wf(rng, op, 'err')
+        q['fs'] = ('err', 'kind', kind)
+        cases.append(make_case(rng, start + len(cases), q['bytes'], q['fs'], q, cap=1 << 17, remap=(0, 0), minor=33,
+                               transport=transports[kind % len(transports)]))
+    return cases
+
+def gen_readerr_cases(rng, start, transports=('fusedev', 'virtio')):
+    """Deterministic block (audit6): READ where the filesystem pushes some bytes into the data writer and THEN fails
+    (an I/O error in the middle of a file).  What the filesystem returned is the error, so the reply must be the bare
+    error reply -- the READ twin of gen_direrr_cases."""
+    cases = []
+    k = 0
+    for en in (5, 4095):
+        for n in (1, 100, 4096):
+            q = gen_wf(rng, 15, 'read')
+            q['fs'] = ('readerr', en, bytes(rng.getrandbits(8) for _ in range(n)))
+            cases.append(make_case(rng, start + len(cases), q['bytes'], q['fs'], q, cap=1 << 17, remap=(0, 0), minor=33,
+                                   transport=transports[k % len(transports)])); k += 1
+    return cases
+
+def gen_init_shape_cases(rng, start, transports=('fusedev', 'virtio', 'chan')):
+    """Deterministic block (audit6): INIT with every protocol major class (older, 7, newer) x minors on both sides of
+    the compat sizes x the FUSE_INIT_EXT marker with / without / with a short 7.36 tail.  gen_wf always sends major 7;
+    the other branches of Server::init were reached by the byte mutator only, and then without the 'must be answered'
+    predicate.  Every INIT that carries its 16 fixed bytes must be answered (C01_init_answered)."""
+    cases = []
+    k = 0
+    def add(major, minor, flags, tail, kind):
+        nonlocal k
+        q = gen_wf(rng, 26, kind)
+        f = q['fields']; f['major'] = major; f['minor'] = minor; f['flags'] = flags
+        q['flags2'] = struct.unpack_from('<I', tail, 0)[0] if len(tail) >= 48 else None
+        h = q['hdr']
+        body = enc_struct('fuse_init_in', f, COMPAT['fuse_init_in']) + tail
+        q['bytes'] = in_header(40 + len(body), 26, h['unique'], h['nodeid'], h['uid'], h['gid'], h['pid']) + body
+        cases.append(make_case(rng, start + len(cases), q['bytes'], q['fs'], q, cap=1 << 17, remap=(0, 0), minor=None, vu=False,
+                               transport=transports[k % len(transports)])); k += 1
+    ext = 1 << 30
+    for major in (0, 6, 8, (1 << 32) - 1):
+        for minor, flags, tail in ((0, 0, b''), (36, ext | 1, struct.pack('<I', 5) + bytes(44)), ((1 << 32) - 1, ext, b'')):
+            add(major, minor, flags, tail, 'init' if (major + minor) % 2 == 0 else 'err')
+    for minor in (4, 5, 22, 23, 36):
+        for flags, tail in ((ext | 0x20, struct.pack('<I', 0x81) + bytes(44)), (ext | 0x20, b''), (ext | 0x20, bytes(47)), (0x20, bytes(48))):
+            add(7, minor, flags, tail, 'init')
     return cases
 
 def gen_badname_cases(rng, start, transports=('fusedev', 'virtio')):
